@@ -12,7 +12,9 @@ By-value: for the distinct (classes, size, leaf signature) shapes found by TLC, 
 compiled by c2m and the other by gcc (shared library given to c2m with -L/-l; gcc -> c2m through callbacks), both
 directions, as arguments (first, mixed with scalars, after the integer / SSE registers are exhausted, all registers
 used, four aggregates, and six two-aggregate calls with a partly used register file where the aggregate that does not
-fit goes to memory and the next one must still get the free register) and as return values, plus c2m -> c2m and gcc -> gcc controls.
+fit goes to memory and the next one must still get the free register, and seven calls where scalars that travel in
+memory (long double, float/double beyond xmm7, long beyond r9) precede the aggregate with the integer / SSE scalars
+counted so that it lands exactly on the last free registers) and as return values, plus c2m -> c2m and gcc -> gcc controls.
 Classification: the spec's classes are compared with where gcc really takes a lone aggregate argument from
 (harness/c08_probe.S loads every argument register and stack slot with its own byte pattern).
 """
@@ -63,6 +65,42 @@ def build_c2m():
 
 
 # ----------------------------------------------------------------------------------------------- rendering
+# enumerator value kinds of spec/CLayout.tla (EnumVals) as C constants
+EVAL = {"nbig": "(-4294967296L)", "nmin": "(-2147483647 - 1)", "neg1": "(-1)", "zero": "0", "imax": "2147483647",
+        "umax": "4294967295u", "huge": "4294967296L", "lmax": "9223372036854775807L", "ubig": "9223372036854775808ul"}
+
+
+def ctype(T):
+    """C spelling of a scalar type record"""
+    if T["t"] == "en":
+        return "enum EN_" + "_".join(T["ev"])
+    return CTYPE[T["t"]]
+
+
+def enums_of(T, acc):
+    if T["k"] == "s":
+        if T["t"] == "en":
+            acc.add(tuple(T["ev"]))
+    elif T["k"] == "a":
+        enums_of(T["el"], acc)
+    else:
+        for m in T["ms"]:
+            if m["m"] != "b":
+                enums_of(m["ty"], acc)
+    return acc
+
+
+def enum_decls(rows):
+    """definitions of the enumerated types used by the declarations (enumerators in the order the spec gives)"""
+    acc = set()
+    for r in rows:
+        enums_of(r["d"], acc)
+    L = []
+    for ev in sorted(acc):
+        n = "EN_" + "_".join(ev)
+        L.append("enum %s { %s };" % (n, ", ".join("%s_%d = %s" % (n, k, EVAL[v]) for k, v in enumerate(ev))))
+    return L
+
 def render_members(ms, pre, ind):
     """C text of a member list; names as in spec/CLayout.tla (positional, anonymous members pass a prefix down)."""
     L = []
@@ -86,7 +124,7 @@ def render_decl(T, name, ind):
         suffix += "[%d]" % T["n"]
         T = T["el"]
     if T["k"] == "s":
-        return ["%s%s %s%s;" % (ind, CTYPE[T["t"]], name, suffix)]
+        return ["%s%s %s%s;" % (ind, ctype(T), name, suffix)]
     L = ["%s%s {" % (ind, "struct" if T["k"] == "st" else "union")]
     L += render_members(T["ms"], "", ind + "  ")
     L.append("%s} %s%s;" % (ind, name, suffix))
@@ -143,7 +181,7 @@ def kw(T):
 
 
 def render_layout_tu(rows, base):
-    L = [PRELUDE]
+    L = [PRELUDE] + enum_decls(rows)
     for j, r in enumerate(rows):
         i = base + j
         T = r["d"]
@@ -263,7 +301,7 @@ FLAGKEY = {"bb": "layout:bitfield:after_bitfield_in_later_unit_overlaps_unit_0",
 def sig(T):
     """compact signature of a type: kinds and scalar types, no widths"""
     if T["k"] == "s":
-        return T["t"]
+        return "enum<%s>" % ",".join(T["ev"]) if T["t"] == "en" else T["t"]
     if T["k"] == "a":
         return sig(T["el"]) + "[]"
     parts = []
@@ -404,7 +442,11 @@ def judge_layout(c2m, rows, tag, engines, st, mutate=None):
             st.confirmed += 1
             if not ok and o is None or not ok and o == e:
                 st.c2m_fail += 1
-                keys = ["layout:c2m_fails:" + sig(r["d"])]
+                msg = re.findall(r"\.c:\d+:\d+: *([^\n]+)", diag)
+                if msg:      # c2m rejects the declaration with a message: the message is the construct
+                    keys = ["layout:c2m_rejects:" + re.sub(r"[^a-z0-9]+", "_", msg[-1].lower()).strip("_")[:80]]
+                else:
+                    keys = ["layout:c2m_fails:" + sig(r["d"])]
                 text = "%s: gcc and spec agree, c2m %s fails: %s" % (decl_text(r["d"]), eng, diag.strip()[-200:])
             else:
                 keys = layout_keys(r, o)
@@ -415,7 +457,8 @@ def judge_layout(c2m, rows, tag, engines, st, mutate=None):
 
 # ----------------------------------------------------------------------------------------------- by-value passing
 NSEED = 3            # value sets per shape (for unions each set activates another member)
-TESTS = ["a1", "a2", "a3", "a4", "a5", "a6", "r", "r2", "a7", "a8", "a9", "a10", "a11", "a12"]
+TESTS = ["a1", "a2", "a3", "a4", "a5", "a6", "r", "r2", "a7", "a8", "a9", "a10", "a11", "a12",
+         "a13", "a14", "a15", "a16", "a17", "a18", "a19"]
 
 
 def has_union(T):
@@ -467,6 +510,8 @@ def _lit(rng, lf):
         return str(rng.randint(0, 1))
     if t == "enum":
         return "E%d" % rng.randint(0, 2)
+    if t == "en":
+        return "EN_%s_%d" % ("_".join(lf["ev"]), rng.randrange(len(lf["ev"])))
     if t == "float":
         return "%d.0f" % rng.randint(-(1 << 20), 1 << 20)
     if t == "double":
@@ -565,6 +610,15 @@ def protos(P, i):
         ("a10", ("int", "%s, struct KD2 kd2, %s a, int s" % (DBLS(1, 7), T))),
         ("a11", ("int", "%s, %s a, struct KD1 kd1, struct K1 k1, int s" % (LONGS(1, 6), T))),
         ("a12", ("int", "%s, %s a, struct K1 k1, struct KD1 kd1, int s" % (DBLS(1, 8), T))),
+        # scalars that are passed in memory (long double; double/float beyond xmm7) take no register: with 4 / 5 integer
+        # (6 / 7 SSE) scalars in front an aggregate of 2 / 1 INTEGER (SSE) eightbytes lands exactly on the last registers
+        ("a13", ("int", "long double w, %s, %s a, int s" % (LONGS(1, 4), T))),
+        ("a14", ("int", "long i1, long double w, %s, %s a, int s" % (LONGS(2, 5), T))),
+        ("a15", ("int", "%s, double d9, %s, %s a, int s" % (DBLS(1, 8), LONGS(1, 4), T))),
+        ("a16", ("int", "%s, float f9, long double w, %s, %s a, int s" % (DBLS(1, 8), LONGS(1, 5), T))),
+        ("a17", ("int", "long double w, %s, %s a, int s" % (DBLS(1, 6), T))),
+        ("a18", ("int", "double d1, long double w, %s, %s a, int s" % (DBLS(2, 7), T))),
+        ("a19", ("int", "%s, long i7, double d1, %s a, int s" % (LONGS(1, 6), T))),
     ])
 
 
@@ -599,6 +653,16 @@ def gen_shape_funcs(P, i, defs=True):
     L.append("int %sa10_%d(%s) { return chk%d(&a, s) + ckd2(&kd2, s) + %s; }" % (P, i, pr["a10"][1], i, d7))
     L.append("int %sa11_%d(%s) { return chk%d(&a, s) + ckd1(&kd1, s) + ck1(&k1, s) + %s; }" % (P, i, pr["a11"][1], i, l6))
     L.append("int %sa12_%d(%s) { return chk%d(&a, s) + ck1(&k1, s) + ckd1(&kd1, s) + %s; }" % (P, i, pr["a12"][1], i, d8))
+    l4 = " + ".join("(i%d != %d + s)" % (k, 100 * k) for k in range(1, 5))
+    d6 = " + ".join("(d%d != %d.5 + s)" % (k, k) for k in range(1, 7))
+    wc = "(w != 1234.5L + s)"
+    L.append("int %sa13_%d(%s) { return chk%d(&a, s) + %s + %s; }" % (P, i, pr["a13"][1], i, wc, l4))
+    L.append("int %sa14_%d(%s) { return chk%d(&a, s) + %s + %s; }" % (P, i, pr["a14"][1], i, wc, li))
+    L.append("int %sa15_%d(%s) { return chk%d(&a, s) + (d9 != 9.5 + s) + %s + %s; }" % (P, i, pr["a15"][1], i, d8, l4))
+    L.append("int %sa16_%d(%s) { return chk%d(&a, s) + (f9 != 9.25f + s) + %s + %s + %s; }" % (P, i, pr["a16"][1], i, wc, d8, li))
+    L.append("int %sa17_%d(%s) { return chk%d(&a, s) + %s + %s; }" % (P, i, pr["a17"][1], i, wc, d6))
+    L.append("int %sa18_%d(%s) { return chk%d(&a, s) + %s + %s; }" % (P, i, pr["a18"][1], i, wc, d7))
+    L.append("int %sa19_%d(%s) { return chk%d(&a, s) + (i7 != 700 + s) + (d1 != 1.5 + s) + %s; }" % (P, i, pr["a19"][1], i, l6))
     L.append(gen_driver(P, i))
     L.append("int %sself_%d(void) { static const struct cb%d cb = {%s}; return %sdrv_%d(&cb); }"
              % (P, i, i, ", ".join("%s%s_%d" % (P, n, i) for n in pr), P, i))
@@ -611,12 +675,21 @@ def call_args(n, sv):
     l6 = li + ", 600 + %s" % sv
     d7 = ", ".join("%d.5 + %s" % (k, sv) for k in range(1, 8))
     d8 = d7 + ", 8.5 + %s" % sv
+    l4 = ", ".join("%d + %s" % (100 * k, sv) for k in range(1, 5))
+    d6 = ", ".join("%d.5 + %s" % (k, sv) for k in range(1, 7))
     return {"a1": "a, %s" % sv, "a2": "11 + %s, 2.5 + %s, a, %s" % (sv, sv, sv),
             "a3": "%s, a, 600 + %s, b, %s" % (li, sv, sv), "a4": "%s, a, 8.5 + %s, b, %s" % (d7, sv, sv),
             "a5": "%s, %s, a, %s" % (l6, d8, sv), "a6": "a, b, c, d, %s" % sv, "r": sv, "r2": "a, %s" % sv,
             "a7": "%s, a, k1, %s" % (li, sv), "a8": "%s, a, kd1, %s" % (d7, sv), "a9": "%s, k2, a, %s" % (li, sv),
             "a10": "%s, kd2, a, %s" % (d7, sv), "a11": "%s, a, kd1, k1, %s" % (l6, sv),
-            "a12": "%s, a, k1, kd1, %s" % (d8, sv)}[n]
+            "a12": "%s, a, k1, kd1, %s" % (d8, sv),
+            "a13": "1234.5L + %s, %s, a, %s" % (sv, l4, sv),
+            "a14": "100 + %s, 1234.5L + %s, %s, a, %s" % (sv, sv, ", ".join("%d + %s" % (100 * k, sv) for k in range(2, 6)), sv),
+            "a15": "%s, 9.5 + %s, %s, a, %s" % (d8, sv, l4, sv),
+            "a16": "%s, 9.25f + %s, 1234.5L + %s, %s, a, %s" % (d8, sv, sv, li, sv),
+            "a19": "%s, 700 + %s, 1.5 + %s, a, %s" % (l6, sv, sv, sv),
+            "a17": "1234.5L + %s, %s, a, %s" % (sv, d6, sv),
+            "a18": "1.5 + %s, 1234.5L + %s, %s, a, %s" % (sv, sv, ", ".join("%d.5 + %s" % (k, sv) for k in range(2, 8)), sv)}[n]
 
 
 def gen_driver(P, i):
@@ -666,7 +739,7 @@ COMP_FILL = "mk1(&k1, s); mk2(&k2, s); mkd1(&kd1, s); mkd2(&kd2, s);"
 
 def gen_byvalue_units(shapes, base, seed_):
     """(text of the gcc side library, text of the c2m side main program) for a batch of shapes"""
-    lib, main = [BV_PRELUDE], [BV_PRELUDE]
+    lib, main = [BV_PRELUDE] + enum_decls(shapes), [BV_PRELUDE] + enum_decls(shapes)
     main.append('static void say(int i, const char *t, int v) { printf("V %d %s %d\\n", i, t, v); fflush(stdout); }')
     main.append('static void mark(int i, const char *t) { printf("T %d %s\\n", i, t); fflush(stdout); }')
     for j, r in enumerate(shapes):
@@ -794,6 +867,8 @@ def value_bytes(r):
             s.update(range(lf["bit"] // 8, (lf["bit"] + lf["w"] - 1) // 8 + 1))
         else:
             n = {"ldouble": 10}.get(lf["t"])
+            if n is None and "sz" in lf:
+                n = lf["sz"]
             if n is None:
                 n = {"char": 1, "schar": 1, "uchar": 1, "bool": 1, "short": 2, "ushort": 2, "int": 4, "uint": 4, "float": 4,
                      "enum": 4}.get(lf["t"], 8)
@@ -827,6 +902,7 @@ def run_class_probe(rows, tag):
          "extern void c08_call(void (*fn)(void), const unsigned long *regs);",
          "static unsigned char out[64];", "static unsigned long regs[22];",
          "static void show(int i, unsigned n) { printf(\"P %d \", i); for (unsigned k = 0; k < n && k < 64; k++) printf(\"%02x\", out[k]); printf(\"\\n\"); }"]
+    L += enum_decls(rows)
     for i, r in enumerate(rows):
         L += render_type(r["d"], "S%d" % i)
         L.append("__attribute__((noinline)) void p%d(%s S%d a) { memcpy(out, &a, sizeof a > 64 ? 64 : sizeof a); }" % (i, kw(r["d"]), i))
@@ -883,7 +959,7 @@ def run_static_unit(c2m, rows, base, tag):
     """sizes of uninitialised file-scope and block-scope static objects: c2m (-S, bss items) and gcc (nm -S)"""
     d = os.path.join(RUN, "st")
     os.makedirs(d, exist_ok=True)
-    L = ["enum E { E0, E1, E2 };"]
+    L = ["enum E { E0, E1, E2 };"] + enum_decls(rows)
     for j, r in enumerate(rows):
         i = base + j
         L += render_type(r["d"], "S%d" % i)
@@ -925,14 +1001,14 @@ def run_static_unit(c2m, rows, base, tag):
 TIERS = {
     "quick": {
         "jobs": [("flat3", "CLayout_mc.cfg", 1, None, None), ("flat2", "CLayout_mc2.cfg", 1, None, None),
-                 ("nest", "CLayout_nest.cfg", 1, None, None), ("ld", "CLayout_ld.cfg", 1, None, None), ("anon", "CLayout_anon.cfg", 1, None, None), ("edge", "CLayout_edge.cfg", 1, None, None),
+                 ("nest", "CLayout_nest.cfg", 1, None, None), ("ld", "CLayout_ld.cfg", 1, None, None), ("anon", "CLayout_anon.cfg", 1, None, None), ("edge", "CLayout_edge.cfg", 1, None, None), ("enum", "CLayout_enum.cfg", 1, None, None), ("enumx", "CLayout_enumx.cfg", 1, None, None),
                  ("sim", "CLayout_sim.cfg", 1, 1500, 60)],
         "layout_engines": ["-ei"], "bv_engines": ["-ei", "-eg -O2"], "per_group": 1, "mem_sizes": 10, "per_mem": 1,
         "probe": 3000, "static": 2000, "tlc_par": 3,
     },
     "thorough": {
         "jobs": [("flat3", "CLayout_mc.cfg", 1, None, None), ("flat2", "CLayout_mc2.cfg", 1, None, None),
-                 ("nest", "CLayout_nest.cfg", 1, None, None), ("ld", "CLayout_ld.cfg", 1, None, None), ("anon", "CLayout_anon.cfg", 1, None, None), ("edge", "CLayout_edge.cfg", 1, None, None),
+                 ("nest", "CLayout_nest.cfg", 1, None, None), ("ld", "CLayout_ld.cfg", 1, None, None), ("anon", "CLayout_anon.cfg", 1, None, None), ("edge", "CLayout_edge.cfg", 1, None, None), ("enum", "CLayout_enum.cfg", 1, None, None), ("enumx", "CLayout_enumx.cfg", 1, None, None),
                  ("flat2w", "CLayout_t.cfg", 3, None, None), ("flat3m", "CLayout_t2.cfg", 3, None, None),
                  ("nestw", "CLayout_nest_t.cfg", 3, None, None), ("sim", "CLayout_sim.cfg", 2, 6000, 60)],
         "layout_engines": ["-ei", "-eg -O2"], "bv_engines": ["-ei", "-eg -O0", "-eg -O2"], "per_group": 12, "mem_sizes": 60,
@@ -944,7 +1020,31 @@ POS = {"a1": "arg_first", "a2": "arg_mixed_with_scalars", "a3": "arg_after_int_r
        "a5": "arg_all_regs_used", "a6": "four_aggregate_args", "r": "ret", "r2": "arg_and_ret",
        "a7": "arg_after_5_int_regs_then_1_eightbyte_int_aggregate", "a8": "arg_after_7_sse_regs_then_1_eightbyte_sse_aggregate",
        "a9": "arg_after_spilled_2_eightbyte_int_aggregate", "a10": "arg_after_spilled_2_eightbyte_sse_aggregate",
-       "a11": "arg_after_6_int_regs_then_sse_and_int_aggregates", "a12": "arg_after_8_sse_regs_then_int_and_sse_aggregates"}
+       "a11": "arg_after_6_int_regs_then_sse_and_int_aggregates", "a12": "arg_after_8_sse_regs_then_int_and_sse_aggregates",
+       "a13": "arg_after_long_double_and_4_int_regs", "a14": "arg_after_long_double_and_5_int_regs",
+       "a15": "arg_after_stack_double_and_4_int_regs", "a16": "arg_after_stack_float_long_double_and_5_int_regs",
+       "a17": "arg_after_long_double_and_6_sse_regs", "a18": "arg_after_long_double_and_7_sse_regs",
+       "a19": "arg_after_stack_long_and_1_sse_reg"}
+# defects of the argument bookkeeping that do not depend on engine or direction (both sides of c2m use the same code):
+K_OVER_SSE = "abi:args:integer_class_aggregate_after_more_than_8_sse_scalars_sent_to_memory"
+K_OVER_INT = "abi:args:sse_class_aggregate_after_more_than_6_integer_scalars_sent_to_memory"
+K_ALIGN16 = "abi:args:16_byte_aligned_memory_aggregate_after_odd_number_of_stack_eightbytes_not_aligned"
+
+
+def bookkeeping_key(r, n):
+    """key of a known family if test n on shape r is one of its instances (decided from the spec's classes), else None"""
+    cls = r["cls"]
+    in_mem = cls == ["MEMORY"] or "X87" in cls
+    ni, nx = cls.count("INTEGER"), cls.count("SSE")
+    # a15: all SSE registers are taken, a19: all INTEGER registers are taken; one stack eightbyte (d9 / i7) precedes
+    on_stack = in_mem or (n == "a15" and nx > 0) or (n == "a19" and ni > 0)
+    if n in ("a15", "a19") and on_stack and r["al"] == 16:
+        return K_ALIGN16
+    if not in_mem and nx == 0 and ((n == "a15" and ni <= 2) or (n == "a16" and ni == 1)):
+        return K_OVER_SSE           # nine SSE scalars before it, the integer registers it needs are free
+    if not in_mem and ni == 0 and nx >= 1 and n == "a19":
+        return K_OVER_INT           # seven integer scalars before it, xmm1.. are free
+    return None
 K_CLS = {"nc": "abi:classify:nested_aggregate_offset_ignored",
          "zc": "abi:classify:zero_width_bitfield_counts_as_integer"}
 
@@ -988,6 +1088,8 @@ def bv_keys(r, eng, test, v):
             return [K_CLS[f] for f in sorted(r["cdev"])]
         return ["abi:%s:%s:crash:%s" % (ENG_TAG.get(eng, eng), "gcc_to_c2m" if test == "gc" else "gcc_to_gcc_called_from_c2m", cls)]
     d, n = test.split("_", 1)
+    if bookkeeping_key(r, n):
+        return [bookkeeping_key(r, n)]
     if r["cdev"]:
         return [K_CLS[f] for f in sorted(r["cdev"])]
     return ["abi:%s:%s:%s:%s" % (ENG_TAG.get(eng, eng), "c2m_to_gcc" if d == "cg" else "gcc_to_c2m", POS[n], cls)]
@@ -995,7 +1097,7 @@ def bv_keys(r, eng, test, v):
 
 def _bv_units(c2m, jobs, tag, engines, seed_):
     """run by-value units; a unit on which c2m fails before any test is halved until the shape is alone"""
-    with ThreadPoolExecutor(max_workers=max(2, NPAR // 2)) as ex:
+    with ThreadPoolExecutor(max_workers=NPAR) as ex:
         outs = list(ex.map(lambda j: run_byvalue_unit(c2m, j[0], j[1], tag, engines, seed_), jobs))
     done_jobs, done_outs = [], []
     budget = 60
@@ -1292,7 +1394,8 @@ def selftest():
         conf = judge_byvalue(c2m, shapes, "self3", ["-eg -O2"], 1, collections.Counter())
     finally:
         _SELFTEST_LIE = None
-    hit = sorted(set((i, t) for i, eng, t, v in conf))
+    # instances of the argument-bookkeeping families (genuine findings of the unchanged tree) are not what is tested here
+    hit = sorted(set((i, t) for i, eng, t, v in conf if "_" not in t or not bookkeeping_key(shapes[i], t.split("_", 1)[1])))
     ok = (2, "gc_a1") in hit and all(i == 2 for i, t in hit)
     print("selftest 3 (c2m-compiled callee misreads its aggregate argument, %s): %s"
           % (decl_text(shapes[2]["d"]), "reported: %s" % hit if ok else "NOT detected: %s" % conf[:5]))
